@@ -74,6 +74,7 @@ type Conn struct {
 	rFired      bool
 	wFired      bool
 	rDeadline   time.Time
+	blockedW    int // goroutines blocked in Write on the send window
 	parked      int // goroutines blocked in Read with nothing deliverable
 	inRead      int
 	readCalls   int
@@ -82,6 +83,7 @@ type Conn struct {
 	Writes      []int
 	Deadlines   []DeadlineCall
 	CloseCalls  int
+	window      int // manual mode: Write blocks while this many bytes are waiting in the outbox (0 = unbounded)
 	localAddr   net.Addr
 	remoteAddr  net.Addr
 	writeErr    error // injected: next writes fail
@@ -187,11 +189,39 @@ func (c *Conn) Write(b []byte) (int, error) {
 	cp := append([]byte(nil), b...)
 	if c.auto {
 		c.peer.deliverLocked(cp, c.maxSeg)
-	} else {
+	} else if c.window <= 0 {
 		c.outbox = append(c.outbox, cp...)
+	} else {
+		// back-pressure: the network accepts at most `window` unsent bytes; the rest of the Write blocks
+		for len(cp) > 0 {
+			for len(c.outbox) >= c.window && !c.closed {
+				c.blockedW++
+				l.cond.Broadcast()
+				l.cond.Wait()
+				c.blockedW--
+			}
+			if c.closed {
+				return len(b) - len(cp), net.ErrClosed
+			}
+			k := c.window - len(c.outbox)
+			if k > len(cp) {
+				k = len(cp)
+			}
+			c.outbox = append(c.outbox, cp[:k]...)
+			cp = cp[k:]
+			l.cond.Broadcast()
+		}
 	}
 	l.cond.Broadcast()
 	return len(b), nil
+}
+
+// SetWindow bounds the number of written-but-untaken bytes (manual mode); Writes block beyond it.
+func (c *Conn) SetWindow(n int) {
+	c.l.mu.Lock()
+	c.window = n
+	c.l.cond.Broadcast()
+	c.l.mu.Unlock()
 }
 
 func (c *Conn) Close() error {
@@ -340,6 +370,7 @@ func (c *Conn) Take() []byte {
 	defer c.l.mu.Unlock()
 	b := c.outbox
 	c.outbox = nil
+	c.l.cond.Broadcast()
 	return b
 }
 
@@ -369,6 +400,7 @@ type State struct {
 	BytesRead, BytesWrit           int
 	ReadCalls, InRead              int
 	CloseCalls                     int
+	BlockedWriters                 int
 }
 
 func (c *Conn) stateLocked() State {
@@ -378,7 +410,7 @@ func (c *Conn) stateLocked() State {
 	}
 	return State{Closed: c.closed, Parked: c.parked > 0 && n == 0, RArmed: c.rArmed, RFired: c.rFired,
 		RDeadline: c.rDeadline, Inbox: n, Outbox: len(c.outbox), BytesRead: c.BytesRead, BytesWrit: c.BytesWrit,
-		ReadCalls: c.readCalls, InRead: c.inRead, CloseCalls: c.CloseCalls}
+		ReadCalls: c.readCalls, InRead: c.inRead, CloseCalls: c.CloseCalls, BlockedWriters: c.blockedW}
 }
 
 func (c *Conn) State() State {
